@@ -113,6 +113,8 @@ PROPS = {
             "trusted_base": TB_COMMON + ["strace 6.x inject=...:signal=KILL delivers the kill on entry of the selected system call; power-loss durability, partial write() calls and disk-full are not covered; "
                                          "distinct recordings get distinct millisecond time stamps (hypothesis wf_calls; the harness waits 2 ms between recordings)",
                                          "go-cptv's reader is the decoder: a file 'decodes' if every frame reads without error up to EOF and the count equals the header's NumFrames"]},
-    "E2E": {"stages": [{"harness": "E2E", "corr": "corr.E2E11", "n": {"quick": 8, "thorough": 200}, "shard": 1}],
-            "theorems": "props/C19.v", "rule": "dev", "trusted_base": TB_COMMON},
+    "C11": {"stages": [{"harness": "E2E", "corr": "corr.E2E11", "n": {"quick": 8, "thorough": 200}, "shard": 1},
+                       {"harness": "CODEC", "corr": "corr.C11codec", "n": {"quick": 300, "thorough": 10000}, "shard": 50},
+                       {"harness": "CPTVHDR", "corr": "corr.C11hdr", "n": {"quick": 150, "thorough": 3000}, "shard": 30}],
+            "theorems": "props/C19.v", "rule": "x", "trusted_base": TB_COMMON},
 }
